@@ -2105,6 +2105,299 @@ def _sbm_functions(S):
 
 
 # =====================================================================================================
+# bent_plume_model
+# =====================================================================================================
+
+def _bpm_scenario(S, k):
+    """seeded bent-plume scenario (harness/scen_bpm.py, the generator of C03/C04) with the options C20 needs:
+    crossflow for the intrusion / far-field methods, stratified water so that the plume traps, tracking on / off"""
+    import scen_bpm
+    r = S.r
+    mix = ('gas+inert', 'oil+inert', 'gas', 'inert', 'oil')[k % 5]
+    track = (k % 2 == 0)
+    scn = scen_bpm.random_scenario(r, nparticles=r.randint(1, 3), depth=r.uniform(300., 1500.), mix=mix,
+                                   biodeg=r.choice([False, True]), current=r.choice(['uniform', 'sheared']) if track else 'random',
+                                   strat='normal', wa=False)
+    scn['track'] = track
+    scn['release']['sd_max'] = r.uniform(40., 150.)
+    return scn
+
+
+def _bpm_particles(S, prf, z0, specs):
+    """what scen_bpm.build_particles does, with the constructor calls going through the recorder"""
+    import scen_bpm
+    from tamoc import dispersed_phases as dp, bent_plume_model as bpm
+    parts = []
+    for sp in specs:
+        obj = scen_bpm.build_dbm(sp)
+        Ta = float(prf.get_values(z0, ['temperature'])[0])
+        yk = np.array([1.]) if sp['kind'] == 'inert' else np.array(sp['yk'], dtype=float)
+        m0, T0p, nb0, P, Sa, Ta_ = dp.initial_conditions(prf, z0, obj, yk, sp['mdot'], 2, sp['de'], Ta + sp.get('dT0', 0.))
+        pt = S.attempt('bent_plume_model.Particle', sp['kind'], sp,
+                       lambda: bpm.Particle(0., 0., z0, obj, m0, T0p, nb0, sp['lambda_1'], P, Sa, Ta_, K=sp['K'], K_T=sp['K_T'],
+                                            fdis=sp['fdis'], t_hyd=sp['t_hyd'], lag_time=sp['lag_time']), need=True)
+        S.attempt('bent_plume_model.Particle', sp['kind'] + ':attributes', sp, lambda: _particle_numbers(pt) + [pt.x, pt.y, pt.z, pt.t])
+        parts.append(pt)
+    return parts
+
+
+def _bpm_positions_ok(model):
+    """(t, q) of a bent-plume solution.  The coordinates of a particle that has left the plume are NaN by design
+    (lmp.correct_particle_tracking docstring, lmp.py l.389-435: "replaces the particle position after integration has
+    stopped ... with NaN so that the post-processor always knows whether the solution ... is valid") — those three
+    slots per particle only"""
+    import scen_bpm
+    q = np.array(model.q, dtype=float)
+    lay = scen_bpm.layout(model.particles, len(model.chem_names), len(model.tracers))
+    pos = np.zeros(q.shape[1], dtype=bool)
+    for pl in lay['particles']:
+        pos[pl['X'][0]:pl['X'][1]] = True
+    return NanOK((model.t, q[:, ~pos]), q[:, pos], 'positions of particles outside the plume')
+
+
+def _lag_numbers(ql):
+    strict = [ql.M, ql.S, ql.T, ql.rho, ql.rho_a, ql.u, ql.v, ql.w, ql.V, ql.h, ql.b, ql.sin_p, ql.cos_p, ql.sin_t, ql.cos_t, ql.phi,
+              ql.theta, ql.c_chems, ql.c_tracers, ql.mp, ql.fb, ql.Fb, ql.x, ql.y, ql.z, ql.s]
+    # x_p: Cartesian position of each particle, NaN once it is outside the plume (same documented convention as the state space)
+    return NanOK(strict, [ql.x_p, ql.X_p], 'positions of particles outside the plume')
+
+
+@builder('bpm_sims', 'bent_plume_model.Model.simulate')
+def _build_bpm(S):
+    import scen_bpm
+    from tamoc import bent_plume_model as bpm
+    sims = []
+    for k in range(S.reps(S.nsim)):
+        scn = _bpm_scenario(S, k)
+        try:
+            prf, d = _scratch_profile_obj(S, scen_bpm.build_profile(scn['profile']))
+        except CallFailed:
+            continue
+        rel = scn['release']
+        z0 = rel['z0']
+        try:
+            parts = _bpm_particles(S, prf, z0, scn['particles'])
+        except CallFailed:
+            continue
+        model = S.attempt('bent_plume_model.Model', 'profile', scn['profile'], lambda: bpm.Model(prf))
+        if model is FAILED:
+            continue
+        Ta = float(prf.get_values(z0, ['temperature'])[0])
+        kind = '+'.join(sorted(set(sp['kind'] for sp in scn['particles']))) + (':tracked' if scn['track'] else '')
+
+        def sim():
+            model.simulate(np.array([0., 0., z0]), rel['D'], rel['Vj'], rel['phi_0'], rel['theta_0'], rel['Sj'], Ta + rel['dTj'],
+                           np.array(rel['cj'], dtype=float), list(rel['tracers']), particles=parts, track=scn['track'],
+                           dt_max=rel['dt_max'], sd_max=rel['sd_max'])
+            return _bpm_positions_ok(model)
+        if S.attempt('bent_plume_model.Model.simulate', kind, scn, sim) is FAILED:
+            continue
+        sims.append({'model': model, 'scn': scn, 'prf': prf, 'dir': d, 'kind': kind, 'parts': parts})
+    if not sims:
+        raise Blocked('no bent-plume simulation completed')
+    return sims
+
+
+def _scratch_profile_obj(S, prf):
+    d = S.tmp('sim')
+    os.makedirs(d)
+    write_profile_nc(S, prf, os.path.join(d, 'profile.nc'))
+    return prf, d
+
+
+TABLE['tamoc.bent_plume_model.Model.simulate'] = lambda S: S.get('bpm_sims')
+
+
+def _crossflow_at_end(sim):
+    m = sim['model']
+    z = max(float(m.q[-1, 9]), 0.1)
+    ua, va = sim['prf'].get_values(z, ['ua', 'va'])
+    return math.hypot(ua, va) > 1e-6
+
+
+@entry('bent_plume_model.Model', 'bent_plume_model.Model.get_derived_variables', 'bent_plume_model.Model.save_sim',
+       'bent_plume_model.Model.save_txt', 'bent_plume_model.Model.save_derived_variables', 'bent_plume_model.Model.load_sim',
+       'bent_plume_model.Model.report_mass_fluxes', 'bent_plume_model.Model.report_surfacing_fluxes',
+       'bent_plume_model.Model.report_watercolumn_particle_fluxes', 'bent_plume_model.Model.report_psds',
+       'bent_plume_model.Model.get_intrusion_initial_condition', 'bent_plume_model.Model.get_intrusion_concentration',
+       'bent_plume_model.Model.get_grid_concentrations', 'bent_plume_model.Model.get_planar_concentrations',
+       'bent_plume_model.Particle.point_concentration', 'bent_plume_model.Particle.grid_concentrations',
+       'bent_plume_model.Particle.outside', 'bent_plume_model.Particle.track', 'bent_plume_model.Particle.run_sbm',
+       'bent_plume_model.LagElement.update')
+def _bpm_post(S):
+    from tamoc import bent_plume_model as bpm
+    r = S.r
+    M = 'bent_plume_model.Model.'
+    for sim in S.get('bpm_sims'):
+        model, scn, kind, d, prf = sim['model'], sim['scn'], sim['kind'], sim['dir'], sim['prf']
+        parts = model.particles
+        comp = list(model.composition)
+        nt = len(model.t)
+        tracked = bool(scn['track'])
+        # the report_* methods index every particle's masses with the compound list of particles[0]: a list that mixes soluble
+        # and inert particles (a documented, simulated configuration) gets its own input kind / key
+        hetero = len(set(tuple(pt.composition) for pt in parts)) > 1
+        hk = ':soluble+inert-particles' if hetero else ''
+        soluble = any(pt.particle.issoluble for pt in parts)
+        # ---- LagElement.update at stored states (what every post-processing method is built on)
+        for idx in sorted(set([0, nt // 2, nt - 1])):
+            S.attempt('bent_plume_model.LagElement.update', kind, dict(scn, index=idx),
+                      lambda idx=idx: (model.q_local.update(model.t[idx], model.q[idx], prf, model.p, parts), _lag_numbers(model.q_local))[1])
+        # ---- derived variables / mass fluxes / size distributions
+        tc = r.choice([None, (model.chem_names or comp)[:1]])
+        S.attempt(M + 'get_derived_variables', kind, dict(scn, track_chems=tc), lambda: _derived_ok(model.get_derived_variables(track_chems=tc)))
+        for idx in (0, -1, r.randrange(nt)):
+            for stage in ((0, 1) if tracked else (0,)):
+                chems = r.choice([None, comp[:1], [0]])
+                fpt = r.choice([-1, 0, 1])
+                if stage == 1:
+                    # "The idx value will index the respective model simulation vector": the far-field vectors differ in length
+                    lens = [len(pt.sbm.t) for pt in parts if pt.farfield]
+                    idx1 = min(idx, min(lens) - 1) if (lens and idx >= 0) else idx
+                else:
+                    idx1 = idx
+                S.attempt(M + 'report_mass_fluxes', ('stage%d' % stage) + hk, dict(scn, idx=idx1, stage=stage, chems=chems, fp_type=fpt),
+                          lambda: model.report_mass_fluxes(idx1, stage=stage, chems=chems, fp_type=fpt), edge=hetero)
+        surfaced = model.q[-1, 9] <= 50.
+        if surfaced or tracked:
+            def surf():
+                mp, mc, tp, tc_ = model.report_surfacing_fluxes(chems=None, fp_type=r.choice([-1, 0, 1]))
+                # tp: NaN for a particle that did not surface, tc: "Will equal np.nan if the near-field plume does not surface"
+                # (report_surfacing_fluxes docstring and l.1584-1635)
+                return NanOK((mp, mc), (tp, tc_), 'surfacing times of what did not surface')
+            S.attempt(M + 'report_surfacing_fluxes', ('surfaced' if surfaced else 'trapped') + hk, scn, surf, edge=hetero)
+        else:
+            S.skip('tamoc.' + M + 'report_surfacing_fluxes', 'plume trapped and particles not tracked (the method asks for track=True)')
+        S.attempt(M + 'report_watercolumn_particle_fluxes', 'all-particles' + hk, scn,
+                  lambda: model.report_watercolumn_particle_fluxes(chems=None, fp_type=-1), edge=hetero)
+        loc = r.randrange(nt)
+        S.attempt(M + 'report_psds', kind + ':stage0', dict(scn, loc=loc, stage=0), lambda: model.report_psds(loc, 0))
+        if tracked:
+            zl = r.uniform(0., float(model.q[-1, 9]))
+
+            def psd1():
+                # far-field stage: a particle that was not tracked, is too far from `loc` or lies deeper "reports no result" — NaN
+                # (report_psds l.1815-1877), and the volume fractions are normalised with nansum
+                return NanOK((), model.report_psds(zl, 1), 'no result for this particle at this depth')
+            S.attempt(M + 'report_psds', kind + ':stage1', dict(scn, loc=zl, stage=1), psd1)
+        # ---- intrusion layer and far field (need a crossflow to advect the intrusion / the dissolved plume)
+        if not soluble:
+            S.skip('tamoc.' + M + 'get_intrusion_concentration', 'no soluble particle: there are no dissolved compounds to report')
+        elif _crossflow_at_end(sim):
+            S.attempt(M + 'get_intrusion_initial_condition', kind, scn, lambda: model.get_intrusion_initial_condition())
+            zc = max(float(model.q[-1, 9]), 0.1)
+            x = np.array([[r.uniform(10., 5000.), r.uniform(-50., 50.), zc + r.uniform(-5., 5.)] for _ in range(4)])
+            for mc in (True, False):
+                S.attempt(M + 'get_intrusion_concentration', '%s:max_C=%s' % (kind, mc), dict(scn, x=x, max_C=mc),
+                          lambda mc=mc: model.get_intrusion_concentration(x.copy(), max_C=mc))
+            if tracked and all(pt.farfield for pt in parts):
+                for mc in (True, False):
+                    S.attempt(M + 'get_grid_concentrations', '%s:max_C=%s' % (kind, mc), dict(scn, x=x, max_C=mc),
+                              lambda mc=mc: model.get_grid_concentrations(x.copy(), max_C=mc))
+                yv, zv = np.linspace(-20., 20., 3), np.linspace(max(zc - 100., 1.), zc, 3)
+                S.attempt(M + 'get_planar_concentrations', kind + ':yz-plane', dict(scn, x=500., y=yv, z=zv),
+                          lambda: model.get_planar_concentrations(500., yv.copy(), zv.copy()))
+                pt = r.choice(parts)
+                zp = r.uniform(pt.z_min, pt.z_max)
+                xp = np.array([r.uniform(10., 3000.), r.uniform(-20., 20.), zp])
+                for mc in (True, False):
+                    S.attempt('bent_plume_model.Particle.point_concentration', '%s:max_C=%s' % (kind, mc), dict(scn, x=xp, max_C=mc),
+                              lambda mc=mc: pt.point_concentration(xp.copy(), max_C=mc))
+                S.attempt('bent_plume_model.Particle.grid_concentrations', kind, dict(scn, x=x), lambda: pt.grid_concentrations(x.copy(), True))
+            else:
+                S.skip('tamoc.' + M + 'get_grid_concentrations', 'needs the far-field tracking of every particle (track=True and all particles left the plume below the surface)')
+        else:
+            S.skip('tamoc.' + M + 'get_intrusion_initial_condition', 'no ambient current at the end of the near field (the intrusion is advected by the current)')
+        # ---- files
+        f_nc, f_txt, f_der = os.path.join(d, 'bpm.nc'), os.path.join(d, 'bpm_state'), os.path.join(d, 'bpm_derived.txt')
+        S.attempt(M + 'save_txt', kind, scn, lambda: (model.save_txt(f_txt, 'profile.nc', 'C20 synthetic profile'), _txt_ok(f_txt + '.txt'))[1])
+        S.attempt(M + 'save_derived_variables', kind, dict(scn, track_chems=tc), lambda: _derived_ok(model.save_derived_variables(f_der, track_chems=tc)))
+        # the particle list of a finished simulation written directly (bent-plume particles carry their simulation attributes)
+        pth = _save_particles_direct(S, parts, 'bpm.Particle:after-simulation', scn)
+        if pth is not FAILED and os.path.exists(pth):
+            os.remove(pth)
+        if S.attempt(M + 'save_sim', kind, scn, lambda: model.save_sim(f_nc, 'profile.nc', 'C20 synthetic profile')) is not FAILED:
+            m2 = bpm.Model(prf)
+
+            def load(m=m2):
+                m.load_sim(f_nc)
+                return _bpm_positions_ok(m), [_particle_numbers(q) for q in m.particles]
+            if S.attempt(M + 'load_sim', kind, scn, load) is not FAILED:
+                S.attempt(M + 'get_derived_variables', kind + ':loaded', scn, lambda: _derived_ok(m2.get_derived_variables()))
+            S.attempt('bent_plume_model.Model', 'simfile', scn, lambda: _bpm_positions_ok(bpm.Model(simfile=f_nc)))
+            _load_particles_direct(S, f_nc, 'bpm.Particle:model-file', scn)
+        # ---- Particle methods on the simulated particles (last: they change the particle state)
+        pt = r.choice(parts)
+        ql = model.q_local
+        ql.update(model.t[nt // 2], model.q[nt // 2], prf, model.p, parts)
+        i = parts.index(pt)
+        Xp = np.array(ql.X_p[i], dtype=float)
+        if np.all(np.isfinite(Xp)):
+            S.attempt('bent_plume_model.Particle.track', kind + ':inside', dict(scn, t_p=float(ql.t_p[i]), X_p=Xp),
+                      lambda: pt.track(float(ql.t_p[i]), np.array([ql.x, ql.y, ql.z]), Xp.copy(), ql))
+        if not pt.integrate and hasattr(pt, 'te'):
+            S.attempt('bent_plume_model.Particle.track', kind + ':outside', scn,
+                      lambda: pt.track(float(ql.t_p[i]), np.array([ql.x, ql.y, ql.z]), Xp.copy(), ql))
+        if tracked and pt.z > 0. and pt.farfield:
+            S.attempt('bent_plume_model.Particle.run_sbm', kind, scn, lambda: (pt.run_sbm(prf), pt.sbm.t, pt.sbm.y)[1:])
+        Ta, Sa, Pa = prf.get_values(float(ql.z), ['temperature', 'salinity', 'pressure'])
+        S.attempt('bent_plume_model.Particle.outside', kind, dict(scn, Ta=Ta, Sa=Sa, Pa=Pa),
+                  lambda: (pt.outside(Ta, Sa, Pa), [pt.us, pt.rho_p, pt.A, pt.Cs, pt.beta, pt.beta_T, pt.T])[1])
+
+
+def _derived_ok(res):
+    """derived-variable table of the bent plume model: the columns holding particle positions follow the documented NaN
+    convention of the state space (see _bpm_positions_ok); everything else must be finite"""
+    data, names = res[0], res[1]
+    if isinstance(names, str):
+        names = [ln.split(':', 1)[1].strip() for ln in names.splitlines() if ln.strip().startswith('Col')]
+    data = np.asarray(data, dtype=float)
+    pos = np.array([bool(re.search(r'coordinate of particle|position of particle|-coordinate of the particle', nm, re.I)) for nm in names])
+    if len(pos) != data.shape[1]:
+        return res
+    return NanOK(data[:, ~pos], data[:, pos], 'positions of particles outside the plume')
+
+
+def _txt_ok(path):
+    a = np.loadtxt(path)
+    return NanOK((), a, 'state space written to text, positions of particles outside the plume are NaN') if np.any(np.isnan(a)) else a
+
+
+@entry('bent_plume_model.ModelParams', 'bent_plume_model.Particle', 'bent_plume_model.LagElement', 'bent_plume_model.width_projection',
+       'bent_plume_model.chem_idx_list')
+def _bpm_functions(S):
+    import scen_bpm
+    from tamoc import bent_plume_model as bpm, lmp
+    r = S.r
+    for i in range(S.reps()):
+        scn = _bpm_scenario(S, i)
+        prf = scen_bpm.build_profile(scn['profile'])
+        p = S.attempt('bent_plume_model.ModelParams', 'profile', scn['profile'], lambda: bpm.ModelParams(prf), need=True)
+        S.attempt('bent_plume_model.ModelParams', 'profile:attributes', scn['profile'],
+                  lambda: {k: v for k, v in vars(p).items() if isinstance(v, (int, float, np.floating))})
+        rel = scn['release']
+        z0 = rel['z0']
+        try:
+            parts = _bpm_particles(S, prf, z0, scn['particles'])
+        except CallFailed:
+            continue
+        Ta = float(prf.get_values(z0, ['temperature'])[0])
+        kind = '+'.join(sorted(set(sp['kind'] for sp in scn['particles'])))
+        with quiet():
+            t0, q0, chem_names = lmp.main_ic(prf, parts, np.array([0., 0., z0]), rel['D'], rel['Vj'], rel['phi_0'], rel['theta_0'],
+                                             rel['Sj'], Ta + rel['dTj'], np.array(rel['cj'], dtype=float), list(rel['tracers']), p)
+        S.attempt('bent_plume_model.LagElement', kind, scn,
+                  lambda: _lag_numbers(bpm.LagElement(t0, q0, rel['D'], prf, p, parts, list(rel['tracers']), chem_names)))
+        phi, th, b = r.uniform(-math.pi / 2, math.pi / 2), r.uniform(0., 2 * math.pi), lu(r, 0.05, 100.)
+        a = r.choice([(math.cos(phi) * math.cos(th), math.cos(phi) * math.sin(th)), (math.cos(phi) * math.cos(th), math.sin(phi)), (0., 0.)])
+        S.attempt('bent_plume_model.width_projection', 'unit-vector', dict(Sx=a[0], Sy=a[1], b=b), lambda: bpm.width_projection(a[0], a[1], b))
+        comp = ['methane', 'ethane', 'propane', 'benzene']
+        for chems in (None, ['ethane', 'benzene'], [0, 2]):
+            S.attempt('bent_plume_model.chem_idx_list', type(chems).__name__ + ('' if not chems else ':' + type(chems[0]).__name__),
+                      dict(chems=chems, composition=comp), lambda chems=chems: bpm.chem_idx_list(chems, list(comp)))
+
+
+# =====================================================================================================
 # the check
 # =====================================================================================================
 
